@@ -69,6 +69,8 @@ def prop_C18(run):
     import rules_cond, rules_mpt
     rules_cond.define_rules(run)
     rules_mpt.write_rules(run)
+    import rules_unit
+    rules_unit.unit(run, scope_files=list(rules_unit.LAYOUT_FILES), layout=True)      # `addr_unit:` really is the unit of the record addresses
     # hash order of the format-parameter map must not reach a diagnostic
     pof = run.prog.find("driver::parse_output_format")
     rules_det.det1(run, fns=pof + [g for g in run.prog.real_fns() if g.raw.get("parent") == "driver::parse_output_format"], rule="DET1")
@@ -135,6 +137,12 @@ def prop_C03(run):
     rules_tab.tab_fmt(run)                      # panic-guarded parameter domains of the formatters (divisors nonzero) ...
     validators_agree(run)                       # ... against the validators the driver really applies
     rules_unit.line_column_counts(run)          # locating a diagnostic walks characters (no slicing at an arbitrary byte index)
+    pc_ = run.anchor("TAB-cli", "driver::parse_command")
+    if pc_:
+        rules_tab.tab_cli_derive_when(run, pc_)  # every group that is written gets its file name, after all inputs are known
+    rules_tab.tab_cli_groups(run)               # ... and reaches the write
+    # unchecked arithmetic in the formatters (a panic on an empty or odd-sized output)
+    lim2_obligations(run, only=lambda key, f: "bitvec_format" in key)
     np_ = rules_err.pair(run, reach)
     run.floor("PAIR", "functions pushing parents", np_, 12)
     run.rules_run += ["ERR1 Err => message pushed (interprocedural path-state search)", "ERR3 Unresolved/None in a last pass => message pushed",
@@ -205,8 +213,10 @@ def prop_C13(run):
     rules_unit.unit3(run)
     rules_unit.span_shape(run)
     rules_unit.field_span_rule(run)
+    rules_unit.field_errors_rule(run)
     rules_unit.operand_same_line(run)
     rules_unit.match_text_rule(run)
+    rules_unit.expected_at_cursor(run)
     rules_unit.src_bind(run)
     rules_unit.expr_node_spans(run)
     rules_unit.line_column_counts(run)
